@@ -44,6 +44,10 @@ pub trait Store {
         ann: &Announcement,
     ) -> Result<Option<AnnouncementId>, Error>;
 
+    /// Get the identifier of the stored announcement that is identical to the given one,
+    /// ie. from the same node, of the same type and with the same timestamp, if any.
+    fn id_of(&self, ann: &Announcement) -> Result<Option<AnnouncementId>, Error>;
+
     /// Set whether a message should be relayed or not.
     fn set_relay(&mut self, id: AnnouncementId, relay: RelayStatus) -> Result<(), Error>;
 
@@ -130,6 +134,40 @@ impl Store for Database {
         }
         stmt.bind((5, &ann.signature))?;
         stmt.bind((6, &ann.message.timestamp()))?;
+
+        if let Some(row) = stmt.into_iter().next() {
+            let row = row?;
+            let id = row.read::<i64, _>("rowid");
+
+            Ok(Some(id as AnnouncementId))
+        } else {
+            Ok(None)
+        }
+    }
+
+    fn id_of(&self, ann: &Announcement) -> Result<Option<AnnouncementId>, Error> {
+        let mut stmt = self.db.prepare(
+            "SELECT rowid FROM `announcements`
+             WHERE node = ?1 AND repo = ?2 AND type = ?3 AND timestamp = ?4 AND signature = ?5",
+        )?;
+        stmt.bind((1, &ann.node))?;
+
+        match &ann.message {
+            AnnouncementMessage::Node(_) => {
+                stmt.bind((2, sql::Value::String(String::new())))?;
+                stmt.bind((3, &GossipType::Node))?;
+            }
+            AnnouncementMessage::Refs(msg) => {
+                stmt.bind((2, &msg.rid))?;
+                stmt.bind((3, &GossipType::Refs))?;
+            }
+            AnnouncementMessage::Inventory(_) => {
+                stmt.bind((2, sql::Value::String(String::new())))?;
+                stmt.bind((3, &GossipType::Inventory))?;
+            }
+        }
+        stmt.bind((4, &ann.message.timestamp()))?;
+        stmt.bind((5, &ann.signature))?;
 
         if let Some(row) = stmt.into_iter().next() {
             let row = row?;
